@@ -31,6 +31,28 @@ DESC = {
     "C18": ("is_busy: '!= IDLE' tests became '> IDLE' (CAT_STATE_ERROR = -1 counts as idle)", "a malformed line cut before its LF: cat_is_busy = OK while the line is half consumed and ERROR is owed"),
     "C19": ("print_response_test: newline + description appended with one snprintf and fit check written > instead of >=", "command buffer exactly one byte short of the '=?' text with a description: truncated line + OK instead of ERROR"),
     "C20": ("implicit_write_flag cleared at the LF of parse_command_args instead of where it is consumed", "an over-long implicit-write line (ERROR path never reaches that LF): every later line is treated as implicit write"),
+    # ---- round 2 (each agent was told what round 1 had already tried, to get a different mechanism) ----
+    "C01_r2": ("parse_command_args: argument overflow answers ERROR at once (ack_error) instead of draining the line in CAT_STATE_ERROR", "a write line whose arguments reach the buffer capacity: ERROR mid-line, the rest is parsed as a new command"),
+    "C02_r2": ("set_cmd_state: byte index / lane derived from a bit offset truncated to 8 bits (wrong lane for command index >= 128)", "a table with more than 128 commands"),
+    "C06_r2": ("call_cmd_read_by_fsm: max_data_size hoisted into one local (the command buffer's capacity) and passed to unsolicited read handlers too", "separate unsolicited buffer of a different size + an unsolicited READ with a read handler"),
+    "C09_r2": ("get_cmd_state no longer hides disabled commands (check moved to search_command only): a disabled implicit-write command still triggers the implicit-write cut", "a disabled implicit-write command whose name is a prefix of the typed name"),
+    "C10_r2": ("process_write_loop: PRINT_CMD_LIST_OK starts the command list (as in the run loop) instead of ERROR", "a write handler returning PRINT_CMD_LIST_OK"),
+    "C11_r2": ("unsolicited_process_io_write: a refused write at position 0 drops the event FSM back to its WAIT state (ignores write_state)", "io->write refusing the first payload byte / first trailing-newline byte of an event line while a command response is waiting"),
+    "C12_r2": ("parse_command: on CR a second read_cmd_char() in the same call; a non-LF byte read that way is dropped", "a CR inside the name followed by a byte that is already readable"),
+    "C13_r2": ("ring index wrap written as (idx + 1) & (SIZE - 1) (only correct for powers of two)", "queue capacity 3 with two events pending"),
+    "C14_r2": ("hold_state_flag raised one service call late (inside process_hold_state)", "a release request or cat_is_hold query between the handler returning HOLD and the next call"),
+    "C15_r2": ("process_io_write returns OK instead of BUSY when io->write refused the byte", "io->write refusing a byte in the middle of a command response: cat_service reports OK while a repeated call emits"),
+    "C16_r2": ("cat_trigger_unsolicited_event: early return on a full queue after lock() without unlock()", "mutex configured and a trigger on a full queue"),
+    "C18_r2": ("hold_state_flag cleared only at AFTER_FLUSH_RESET (reset_state) instead of when the hold is left", "observing cat_is_hold while the final response of a released hold is in flight"),
+    # ---- round 3 ----
+    "C03_r3": ("parse_command_args: NUL store guarded by desc->buf_size instead of the command half's capacity", "shared buffer + argument of exactly capacity bytes: NUL written into the event half"),
+    "C04_r3": ("parse_int_decimal: the 'digit seen' flag removed, a lone sign is accepted as 0", "an integer argument that is exactly '+' or '-'"),
+    "C05_r3": ("parse_buffer_hexadecimal: terminator condition regrouped, the half-byte check no longer guards ','", "an odd number (>= 3) of hex digits followed by a comma (not the last variable)"),
+    "C07_r3": ("print_format_num: truncation check written > len instead of >= len", "buffer capacity exactly equal to the length of the READ text ending in a number: truncated number printed, accepted back by WRITE"),
+    "C08_r3": ("is_variables_access_possible: loop 'simplified' so that only the last non-read-write variable decides", "a variable list without RW variables whose last variable has the opposite mode of the request"),
+    "C17_r3": ("cat_hold_exit: hold flag tested before lock(), status written unconditionally under the lock", "a second releasing thread losing the race for the mutex to cat_service"),
+    "C19_r3": ("print_cmd_list: '?' form listed by (var != NULL ? readable : read handler)", "a command with a read handler whose variables are all write-only (or var set with var_num 0)"),
+    "C20_r3": ("parse_command_args: only_test command at LF goes to CAT_STATE_ERROR (LF already consumed) instead of ack_error", "write syntax on a test-only command directly followed by another line: no answer, next line swallowed"),
 }
 
 
@@ -41,6 +63,7 @@ def main():
         if not os.path.isdir(d):
             continue
         out = os.path.join(logdir, "seed_%s.out" % pid)
+        prop = pid.split("_")[0]
         viol, summary, rc = [], "", None
         if os.path.exists(out):
             for l in open(out):
@@ -53,12 +76,12 @@ def main():
                 if m:
                     rc = int(m.group(1))
         meta = {
-            "breaks_property": pid,
+            "breaks_property": prop,
             "change": DESC[pid][0],
             "needs_to_manifest": DESC[pid][1],
             "written_by": "independent sub-agent given only the property text and a scratch worktree of /repo",
             "confirmed": "tools/seed_confirm.sh: patch applies to /repo HEAD, builds with -Werror -Wall -Wextra -pedantic, 30/30 tests pass, demo.c exits 0 without and non-zero with the change",
-            "what_was_run": "tools/seed_run.sh %s seeded/%s/patch.diff %s  (scratch worktree of /repo HEAD + patch, VERIF_REPO=<worktree> ./check %s --tier quick)" % (pid, pid, pid, pid),
+            "what_was_run": "tools/seed_run.sh %s seeded/%s/patch.diff %s  (scratch worktree of /repo HEAD + patch, VERIF_REPO=<worktree> ./check %s --tier quick)" % (pid, pid, prop, prop),
             "check_exit_code": rc,
             "detected": bool(viol) and rc == 1,
             "detecting_jobs": sorted(set(viol))[:8],
